@@ -57,6 +57,7 @@ Supply == Cardinality(Users) * InitBal
 \*   from: a user, or NameId: the transaction names the NAME "n1" as its sender account
 \*   signer: the key that signed (= from when honest); chain: "this" | "other"
 \*   ops (call): "ok" | "fail" (runtime failure after a storage write and a send) | "sys" (system failure of the VM after the same) | "send" (contract sends amt to `to`)
+\*               | "drain" (the called code pays out the contract's WHOLE balance, the amount just received included, to the caller)
 \*   ops (from = NameId): "" | a user: the account whose nonce counter the transaction's nonce is taken from (an
 \*        adversary who signs for a name picks the nonce freely, e.g. the next nonce of the name's NEW holder)
 NameId == "n1"
@@ -104,12 +105,19 @@ Classes(t, fee) ==
   IF MustReject(t) THEN {"reject"}
   ELSE {"reject"} \cup (IF ~CanApply(t, fee) THEN {}
                         ELSE IF t.kind \in {"call", "fdcall"} /\ t.ops = "sys" THEN {}   \* the VM itself fails: dropped, no trace
-                        ELSE IF t.kind \in {"call", "fdcall"} /\ t.ops = "fail" THEN {"error"} ELSE {"success"})
+                        ELSE IF t.kind \in {"call", "fdcall"} /\ t.ops = "fail" THEN {"error"}
+                        \* contract/contract.go Execute, "check for sufficient balance for fee" AFTER the call: the payer's balance
+                        \* as the call left it must cover the fee.  A fee-delegated call that pays the contract's balance out
+                        \* leaves nothing to pay a fee with: it fails at run time (the contract, restored, pays the fee).
+                        ELSE IF t.kind = "fdcall" /\ t.ops = "drain" /\ fee > 0 THEN {"error"}
+                        ELSE {"success"})
 
 \* effects of a successful transaction on balances (fee excluded)
 Move(b, from, to, a) == [b EXCEPT ![from] = @ - a, ![to] = @ + a]
 
 NameRcpt == IF owner.admin = None THEN Name ELSE owner.admin
+\* the balances after the called code ran: "drain" pays everything the contract holds to the caller
+Drained(t, b) == IF t.ops = "drain" THEN Move(b, Contract, Sender(t), b[Contract]) ELSE b
 
 ApplySuccess(t, fee) ==
   LET S == Sender(t) IN
@@ -146,11 +154,11 @@ ApplySuccess(t, fee) ==
             /\ deployed' = TRUE
             /\ UNCHANGED <<staked, total, owner, store>>
        [] t.kind = "call" ->
-            /\ bal' = [Move(bal, S, Contract, t.amt) EXCEPT ![S] = @ - fee]
+            /\ bal' = [Drained(t, Move(bal, S, Contract, t.amt)) EXCEPT ![S] = @ - fee]
             /\ store' = t.nonce                    \* the call writes the storage key
             /\ UNCHANGED <<staked, total, owner, deployed>>
-       [] t.kind = "fdcall" ->                    \* fee-delegated call: the contract pays the fee
-            /\ bal' = [Move(bal, S, Contract, t.amt) EXCEPT ![Contract] = @ - fee]
+       [] t.kind = "fdcall" ->                    \* fee-delegated call: the contract pays the fee (out of what the call left it)
+            /\ bal' = [Drained(t, Move(bal, S, Contract, t.amt)) EXCEPT ![Contract] = @ - fee]
             /\ store' = t.nonce
             /\ UNCHANGED <<staked, total, owner, deployed>>
 
